@@ -414,6 +414,12 @@ def direct_check(case, res):
         trunc = lanczos_truncation(res)
         if trunc:
             return trunc, False, tol
+    if res["kind"] == "ok" and res.get("rescaled_events") is not None:
+        k1 = [e[2] for e in res["events"] if e[0] == "lanczos"]
+        k2 = [e[2] for e in res["rescaled_events"] if e[0] == "lanczos"]
+        if k1 and k2 and min(k1) < min(k2):
+            return ("Lanczos stopped after %d iteration(s) although the same operator multiplied by %g, with the same start vector, runs "
+                    "%d: the breakdown test is absolute, not relative to the operator's scale" % (min(k1), case.get("rescale"), min(k2))), False, tol
     if krylov and not full:
         # rank-deficient by design (rank bound below n, or Lanczos breakdown on repeated eigenvalues)
         return None, False, tol
@@ -442,7 +448,7 @@ def failure_key(case, res, what):
 
 # ------------------------------------------------------------------------------------------------ run
 def slim(case, res=None):
-    d = {k: case[k] for k in ("cell", "kind", "scale", "batch", "op", "method", "upper", "mcs", "mrs", "fast", "inject", "pre", "steps", "target",
+    d = {k: case[k] for k in ("cell", "kind", "scale", "corpus", "corpus_seed", "torch_seed", "rescale", "expr_rescaled", "batch", "op", "method", "upper", "mcs", "mrs", "fast", "inject", "pre", "steps", "target",
                               "singular", "cj", "o", "B", "D", "expr") if k in case}
     if res is not None:
         d["observed"] = {"kind": res["kind"], "exc": res["exc"], "msg": res["msg"], "events": res["events"],
@@ -498,7 +504,7 @@ def run(ctx):
         by_route[route] = by_route.get(route, 0) + 1
         by_cell[case["cell"]] = by_cell.get(case["cell"], 0) + 1
         by_kind[case.get("kind", "plain")] = by_kind.get(case.get("kind", "plain"), 0) + 1
-        distinct.add((case["cell"], case.get("kind", "plain"), case.get("scale"), json.dumps(case.get("steps")), case.get("target"), case.get("cj"), case.get("o"),
+        distinct.add((case["cell"], case.get("kind", "plain"), case.get("scale"), case.get("torch_seed"), json.dumps(case.get("steps")), case.get("target"), case.get("cj"), case.get("o"),
                       tuple(case["batch"]), case["op"], effective_method(case, res), case["upper"],
                       tuple(map(tuple, res["events"])), res["kind"]))
         if what:
